@@ -8,8 +8,23 @@
 //   partition  children(toXml(SceAll)) == children(public) (+) children(content) as multisets, explicit fallback aside;
 //   recover    parse(public, ScePublic) then parseExtensions(content, SceSensitive) gives back every getter value
 //              (fallback markers aside); the same through parse(toXml(SceSensitive), SceSensitive).
+//   client     the same message goes through a REAL QXmppClient with a dummy QXmppE2eeExtension (shaped like the OMEMO manager:
+//              encryptMessage puts serializeExtensions(SceSensitive) into an SCE envelope carried by a marker element,
+//              handleMessage/decryptMessage read it back with parseExtensions(SceSensitive) and injectMessage): the bytes
+//              QXmppClient::sendSensitive hands to the stream must be the public part only, and feeding those bytes to the stream's
+//              receive path (handlePacketReceived -> MessagePipeline) must deliver a message equal to the original, also when
+//              an attacker adds plaintext <thread/>, <subject/>, receipt, marker (and <body/>) next to the encrypted payload.
 #include "common.h"
 #include "QXmppBitsOfBinaryContentId.h"
+#include "QXmppClient.h"
+#include "QXmppClientExtension.h"
+#include "QXmppClient_p.h"
+#include "QXmppE2eeExtension.h"
+#include "QXmppLogger.h"
+#include "QXmppMessageHandler.h"
+#include "QXmppOutgoingClient.h"
+#include "QXmppPromise.h"
+#include "QXmppTask.h"
 #include "QXmppBitsOfBinaryData.h"
 #include "QXmppBitsOfBinaryDataList.h"
 #include "QXmppElement.h"
@@ -442,6 +457,99 @@ static bool isFallbackish(const Child &c, const std::string &fallbackBody)
     return (c.tag == "fallback" && c.ns == "urn:xmpp:fallback:0") || (!fallbackBody.empty() && c.canon == "body{}[]('" + fallbackBody + "')");
 }
 
+
+// ------------------------------------------------------------------------------------------------ real client with a dummy e2ee extension
+static const QString ENC_NS = QStringLiteral("verif:e2ee");
+
+class TestClient : public QXmppClient   // the library declares `friend class TestClient`
+{
+public:
+    TestClient() : QXmppClient(QXmppClient::NoExtensions) { }
+    void receive(const QDomElement &e) { d->stream->handlePacketReceived(e); }
+};
+
+static QByteArray envelope(const Msg &m);
+
+// Shaped like QXmppOmemoManager (client extension + e2ee extension + message handler), with base64 instead of a cipher.
+class DummyE2ee : public QXmppClientExtension, public QXmppE2eeExtension, public QXmppMessageHandler
+{
+public:
+    template<typename T> static QXmppTask<T> ready(T &&v) { QXmppPromise<T> p; p.finish(std::move(v)); return p.task(); }
+
+    QXmppTask<MessageEncryptResult> encryptMessage(QXmppMessage &&message, const std::optional<QXmppSendStanzaParams> &) override
+    {
+        // as ManagerPrivate::encryptMessageForRecipients: the message object keeps all its fields; the encrypted payload is added
+        QXmppElement e; e.setTagName(QStringLiteral("enc")); e.setAttribute(QStringLiteral("xmlns"), ENC_NS);
+        e.setValue(QString::fromLatin1(envelope(message).toBase64()));
+        message.setExtensions({ e });
+        return ready<MessageEncryptResult>(std::make_unique<QXmppMessage>(std::move(message)));
+    }
+    QXmppTask<MessageDecryptResult> decryptMessage(QXmppMessage &&message) override
+    {
+        for (const auto &e : message.extensions())
+            if (e.tagName() == u"enc" && e.attribute(QStringLiteral("xmlns")) == ENC_NS) {
+                QDomDocument doc;
+                if (!doc.setContent(QByteArray::fromBase64(e.value().toLatin1()), true)) break;
+                QXmppSceEnvelopeReader reader(doc.documentElement());
+                // as ManagerPrivate::decryptMessage
+                message.setFallbackMarkers({});
+                message.parseExtensions(reader.contentElement(), QXmpp::SceSensitive);
+                return ready<MessageDecryptResult>(MessageDecryptResult { std::move(message) });
+            }
+        return ready<MessageDecryptResult>(MessageDecryptResult { NotEncrypted {} });
+    }
+    QXmppTask<IqEncryptResult> encryptIq(QXmppIq &&, const std::optional<QXmppSendStanzaParams> &) override
+    { return ready<IqEncryptResult>(IqEncryptResult { QXmppError { QStringLiteral("unsupported"), {} } }); }
+    QXmppTask<IqDecryptResult> decryptIq(const QDomElement &) override { return ready<IqDecryptResult>(IqDecryptResult { NotEncrypted {} }); }
+    bool isEncrypted(const QDomElement &el) override
+    {
+        for (auto c = el.firstChildElement(); !c.isNull(); c = c.nextSiblingElement())
+            if (c.tagName() == u"enc" && c.namespaceURI() == ENC_NS) return true;
+        return false;
+    }
+    bool isEncrypted(const QXmppMessage &m) override
+    {
+        for (const auto &e : m.extensions()) if (e.tagName() == u"enc" && e.attribute(QStringLiteral("xmlns")) == ENC_NS) return true;
+        return false;
+    }
+    bool handleMessage(const QXmppMessage &message) override      // as QXmppOmemoManager::handleMessage
+    {
+        if (!isEncrypted(message)) return false;
+        decryptMessage(QXmppMessage(message)).then(this, [this](MessageDecryptResult &&r) {
+            if (auto *m = std::get_if<QXmppMessage>(&r)) injectMessage(std::move(*m));
+        });
+        return true;
+    }
+};
+
+struct ClientRig {
+    TestClient client;
+    DummyE2ee *ext = nullptr;
+    std::vector<QString> sent;
+    std::vector<Msg> delivered;
+    ClientRig()
+    {
+        auto *lg = new QXmppLogger(&client);
+        lg->setLoggingType(QXmppLogger::SignalLogging);
+        client.setLogger(lg);
+        QObject::connect(lg, &QXmppLogger::message, [this](QXmppLogger::MessageType t, const QString &text) {
+            if (t == QXmppLogger::SentMessage) sent.push_back(text);
+        });
+        client.configuration().setJid(QStringLiteral("juliet@example.org/balcony"));
+        ext = new DummyE2ee;
+        client.addExtension(ext);
+        client.setEncryptionExtension(ext);
+        QObject::connect(&client, &QXmppClient::messageReceived, [this](const QXmppMessage &m) { delivered.push_back(m); });
+    }
+};
+static ClientRig *g_rig = nullptr;
+
+static std::vector<Child> withoutEnc(std::vector<Child> v)
+{
+    v.erase(std::remove_if(v.begin(), v.end(), [](const Child &c) { return c.tag == "enc" && c.ns == "verif:e2ee"; }), v.end());
+    return v;
+}
+
 struct Case { std::vector<std::pair<const Field *, const Variant *>> parts; };
 
 static const char *MODES[] = { "all", "pub", "sens" };   // index = QXmpp::SceMode value
@@ -563,6 +671,65 @@ static void runCase(const Case &cs, const std::vector<Field> &cat)
     { Msg rt; rt.parse(roots[0], QXmpp::SceAll);
       auto g = valuesOf(rt);
       for (auto &kv : want) if (kv.first != "e2eeFallbackBody" /* written in ScePublic only */ && g[kv.first] != kv.second) { oracleFail("C17:harness:unsplit-roundtrip:" + kv.first, spec + " want=" + kv.second + " got=" + g[kv.first]); ok = false; } }
+
+    // ================================================================ through a real QXmppClient (send path, then receive path)
+    {
+        ClientRig &R = *g_rig;
+        R.sent.clear(); R.delivered.clear();
+        R.client.sendSensitive(Msg(m));
+        std::string wire = R.sent.empty() ? std::string() : S(R.sent.back());
+        QDomDocument wdoc;
+        QByteArray wbytes = QByteArray::fromStdString(wire);
+        wbytes.replace("<message ", "<message xmlns=\"jabber:client\" ");     // as inside a client stream
+        QDomElement wroot = R.sent.size() == 1 ? domOf(wbytes, wdoc) : QDomElement();
+        std::vector<Child> wkids;
+        for (auto c : withoutEnc(childrenOf(wroot))) { if (c.ns == "jabber:client") c.ns.clear(); wkids.push_back(c); }
+        corr("c send", R.sent.size() == 1 ? inv(wkids) : "sent-" + std::to_string(R.sent.size()) + "-packets");
+        // send oracle: what reaches the stream is the public part, nothing else
+        for (auto &p : cs.parts)
+            if (p.first->payload)
+                for (auto &sct : p.second->secrets)
+                    if (wire.find(sct) != std::string::npos) { oracleFail("C17:send-path:leak:" + p.first->name, spec + " wire=" + wire); ok = false; }
+        for (auto &c : wkids)
+            if (!publicAllowed(c, fb)) { oracleFail("C17:send-path:public-element:" + c.tag + "{" + c.ns + "}", spec + " wire=" + wire); ok = false; }
+        {
+            std::multiset<std::string> a, b;
+            for (auto &c : wkids) a.insert(c.canon);
+            for (auto &c : kids[1]) b.insert(c.canon);
+            if (a != b) { oracleFail("C17:send-path:not-the-public-part", spec + " wire=" + wire + " toXml(ScePublic)=" + pub); ok = false; }
+        }
+        // receive path: the bytes just sent come back from the stream
+        auto expectDelivered = [&](const char *what, const Msg *got, const std::map<std::string, std::string> &wantv) {
+            if (!got) { oracleFail(std::string("C17:client-receive:") + what + ":not-delivered", spec + " wire=" + wire); ok = false; return; }
+            auto g = valuesOf(*got);
+            for (auto &kv : wantv)
+                if (g[kv.first] != kv.second) { oracleFail(std::string("C17:client-receive:") + what + ":" + kv.first, spec + " want=" + kv.second + " got=" + g[kv.first] + " wire=" + wire); ok = false; }
+        };
+        if (!wroot.isNull()) {
+            R.client.receive(wroot);
+            corr("c recv", R.delivered.size() == 1 ? showParsed(R.delivered[0]) : "delivered-" + std::to_string(R.delivered.size()));
+            expectDelivered("plain", R.delivered.size() == 1 ? &R.delivered[0] : nullptr, want);
+            // an attacker (server, MITM) adds plaintext payload elements next to the encrypted payload: they must not be accepted
+            bool injectBody = fb.empty();
+            QByteArray inj = "<thread>INJECTEDthread</thread><subject>INJECTEDsubject</subject>"
+                             "<received xmlns=\"urn:xmpp:receipts\" id=\"INJECTEDreceipt\"/>"
+                             "<displayed xmlns=\"urn:xmpp:chat-markers:0\" id=\"INJECTEDmarker\"/>";
+            std::string injOp = "c recvinj thread{} subject{} received{urn:xmpp:receipts} displayed{urn:xmpp:chat-markers:0}";
+            if (injectBody) { inj += "<body>INJECTEDbody</body>"; injOp += " body{}"; }
+            QByteArray ibytes = wbytes;
+            int at = ibytes.lastIndexOf("</message>");
+            if (at < 0) { ibytes.replace("/>", "></message>"); at = ibytes.lastIndexOf("</message>"); }   // childless <message …/>
+            ibytes.insert(at, inj);
+            QDomDocument idoc; QDomElement iroot = domOf(ibytes, idoc);
+            R.delivered.clear();
+            R.client.receive(iroot);
+            corr(injOp, R.delivered.size() == 1 ? showParsed(R.delivered[0]) : "delivered-" + std::to_string(R.delivered.size()));
+            auto wanti = want;
+            if (injectBody) wanti["e2eeFallbackBody"] = "INJECTEDbody";     // plaintext <body/> of an encrypted message IS the fallback text
+            expectDelivered("injected", R.delivered.size() == 1 ? &R.delivered[0] : nullptr, wanti);
+            stat("client_roundtrips");
+        }
+    }
     if (ok) oraclePass()++;
     (void)cat;
 }
@@ -574,6 +741,7 @@ int main(int argc, char **argv)
     Rng rng(args.seed);
     bool thorough = args.tier == "thorough";
     auto cat = catalogue();
+    ClientRig rig; g_rig = &rig;
     auto find = [&](const std::string &n) -> const Field * { for (auto &f : cat) if (f.name == n) return &f; return nullptr; };
 
     std::vector<Case> cases;
